@@ -162,10 +162,15 @@ struct Dumper
             out += "(case ";
             char name[12]{};
             const char* nm = nullptr;
-            int kind = 0;       // 1 int, 2 string, 3 negated, 0 bad
+            int kind = 0;       // 1 int, 2 string, 3 negated integer, 4 negated something else, 0 bad
             if (cp.node[0].type == statementType_e::Integer) { kind = 1; std::to_chars(name, name + 11, int32_t(cp.node[1].intValue)); nm = name; }
             else if (cp.node[0].type == statementType_e::String) { kind = 2; nm = cp.node[1].stringValue; }
-            else if (cp.node[0].type == statementType_e::Func1Expr && cp.node[1].byteValue == OP_UN_MINUS) { kind = 3; std::to_chars(name, name + 11, -(int32_t)cp.node[2].node[1].intValue); nm = name; }
+            else if (cp.node[0].type == statementType_e::Func1Expr && cp.node[1].byteValue == OP_UN_MINUS) {
+                // the emitter reads node[2].node[1].intValue whatever node[2] is: for anything but an Integer
+                // node that is the low half of a pointer / string address (kind 4: name not reproducible)
+                kind = cp.node[2].node[0].type == statementType_e::Integer ? 3 : 4;
+                std::to_chars(name, name + 11, -(int32_t)cp.node[2].node[1].intValue); nm = name;
+            }
             out += std::to_string(kind); out += ' ';
             if (kind) str(nm); else out += "- 0";
             out += ' '; out += std::to_string(unsigned(cp.node[0].type));
@@ -480,6 +485,23 @@ int main()
     while (readTokens(t)) {
         if (t.size() == 3 && t[0] == "case" && (t[1] == "0" || t[1] == "1")) {
             say(doCase(t[1] == "1", t[2] == "-" ? std::string() : unhex(t[2])));
+        } else if (t.size() == 1 && t[0] == "consts") {
+            // what the translator writes into lean/MorfuseModel/Gen/EmitConsts.lean
+            std::ostringstream o;
+            o << "breakMax=" << BREAK_JUMP_LOCATION_COUNT << " continueMax=" << CONTINUE_JUMP_LOCATION_COUNT
+              << " prevMax=" << MAX_PREV_OPCODES << " ringSize=" << ScriptCountManager::prevopSize
+              << " szStateScript=" << sizeof(StateScript) << " szCatchBlock=" << sizeof(CatchBlock)
+              << " szEntry=" << sizeof(con::Entry<const_str, script_label_t>) << " szPtr=" << sizeof(void*)
+              << " szSourcePos=" << sizeof(sourcePosMap_t) << " opMax=" << int(OP_MAX) << " opPrevious=" << int(OP_PREVIOUS)
+              << " ops=";
+            // OpcodeInfo[] is file-local: read through its accessors, one entry per opcode below OP_PREVIOUS
+            for (int i = 0; i < int(OP_PREVIOUS); ++i) {
+                if (i) o << ',';
+                o << OpcodeName(opval_t(i)) << ':' << OpcodeLength(opval_t(i)) << ':' << OpcodeVarStackOffset(opval_t(i)) << ':' << (IsExternalOpcode(opval_t(i)) ? 1 : 0);
+            }
+            o << " primes=";
+            for (size_t i = 0; i < sizeof(con::set_primes) / sizeof(con::set_primes[0]); ++i) { if (i) o << ','; o << con::set_primes[i]; }
+            say(o.str());
         } else if (t.size() == 2 && t[0] == "ast") {
             freshContext(false);
             Parsed p;
